@@ -11,6 +11,15 @@
 #define VP_TLS          /* drivers that replay on several threads at once define it as __thread before including */
 #endif
 static VP_TLS long vp_outstanding, vp_allocs, vp_frees;
+/* threads of the library itself (task threads) declare themselves foreign: what they allocate / free is counted in a shared
+   counter that the replaying thread adds to its own ledger */
+static long vp_foreign_outstanding;
+static VP_TLS int vp_foreign_thread;
+#include <pthread.h>
+static pthread_t vp_owner; static int vp_owner_set;     /* when set: every other thread is foreign */
+static int vp_trace;
+#include <stdio.h>
+#define VP_COUNT(d) do { if (vp_owner_set && !pthread_equal(pthread_self(), vp_owner)) vp_foreign_thread = 1; if (vp_trace) fprintf(stderr, "VPALLOC %+d %p foreign=%d ret=%p\n", (d), (void *)p, vp_foreign_thread, __builtin_return_address(0));  if (vp_foreign_thread) __atomic_add_fetch(&vp_foreign_outstanding, (d), __ATOMIC_SEQ_CST); else { vp_outstanding += (d); if ((d) > 0) vp_allocs++; else vp_frees++; } } while (0)
 
 #define VP_WATCH_MAX 4096
 static VP_TLS void *vp_watch_ptr[VP_WATCH_MAX];
@@ -19,21 +28,22 @@ static VP_TLS int vp_nwatch;
 
 static VP_TLS void *vp_last_alloc; static VP_TLS size_t vp_last_size;
 static void (*vp_free_cb)(void *p);
-static void *vp_malloc(size_t n) { void *p = malloc(n ? n : 1); if (p) { vp_outstanding++; vp_allocs++; vp_last_alloc = p; vp_last_size = n; } return p; }
-static void *vp_calloc(size_t a, size_t b) { void *p = calloc(a ? a : 1, b ? b : 1); if (p) { vp_outstanding++; vp_allocs++; vp_last_alloc = p; vp_last_size = a * b; } return p; }
+static void *vp_malloc(size_t n) { void *p = malloc(n ? n : 1); if (p) { VP_COUNT(1); vp_last_alloc = p; vp_last_size = n; } return p; }
+static void *vp_calloc(size_t a, size_t b) { void *p = calloc(a ? a : 1, b ? b : 1); if (p) { VP_COUNT(1); vp_last_alloc = p; vp_last_size = a * b; } return p; }
 static void vp_free(void *p) {
     if (!p) return;
     if (vp_free_cb) vp_free_cb(p);
     /* a watch ends with the free of its block: the allocator may hand the address out again (a second free of the
        same block is a double free, which ASan - or glibc - reports) */
     for (int i = 0; i < vp_nwatch; i++) if (vp_watch_ptr[i] == p) { vp_watch_freed[i]++; vp_watch_ptr[i] = NULL; }
-    vp_outstanding--; vp_frees++;
+    VP_COUNT(-1);
     free(p);
 }
 static void vp_alloc_install(void) {
     memhook._malloc = vp_malloc;
     memhook._calloc = vp_calloc;
     memhook._free = vp_free;
+    vp_trace = getenv("VP_ALLOC_TRACE") != NULL;
 }
 /* user payloads that the library may free through the memhook are allocated with this */
 static void *vp_user_alloc(size_t n) { return vp_malloc(n); }
